@@ -358,7 +358,6 @@ var assumeBroker = []string{
 	notExec,
 }
 
-
 // concretize turns a valid filter into a topic name it matches.
 func (x *g) concretize(f string) string {
 	r := x.r
@@ -756,21 +755,43 @@ func genReceiver(prop string) func(tier string, seed uint64, idx int) interface{
 // garbage returns bytes no MQTT decoder accepts after a CONNECT.
 func (x *g) garbage() []byte {
 	r := x.r
-	switch r.Intn(4) {
+	switch r.Intn(10) {
 	case 0:
 		return []byte{0xf0, 0x00} // reserved packet type 15
 	case 1:
 		return []byte{0x00, 0x00} // reserved packet type 0
 	case 2:
 		return []byte{0x30, 0xff, 0xff, 0xff, 0xff, 0x01} // remaining length with 5 bytes
-	default:
-		b := make([]byte, 4+r.Intn(12))
-		for i := range b {
-			b[i] = byte(r.Intn(256))
+	case 3:
+		// DISCONNECT that is not one: non-zero remaining length
+		n := 1 + r.Intn(8)
+		b := []byte{0xe0, byte(n)}
+		for i := 0; i < n; i++ {
+			b = append(b, byte(r.Intn(256)))
 		}
-		b[0] = 0x62 // PUBREL with wrong flags... whatever follows is wrong too
-		b[1] = 0x02
-		return b[:4]
+		return b
+	case 4:
+		return []byte{0xe0 | byte(1+r.Intn(15)), 0x00} // DISCONNECT with reserved flag bits set
+	case 5:
+		// acknowledgement too short for its packet identifier
+		t := []byte{0x40, 0x50, 0x62, 0x70}[r.Intn(4)]
+		if r.Bool(1, 2) {
+			return []byte{t, 0x00}
+		}
+		return []byte{t, 0x01, byte(r.Intn(256))}
+	case 6:
+		// SUBSCRIBE / UNSUBSCRIBE too short for a packet identifier
+		return []byte{[]byte{0x82, 0xa2}[r.Intn(2)], 0x00}
+	case 7:
+		// QoS>0 PUBLISH whose remaining length ends before the packet identifier
+		q := byte(1 + r.Intn(2))
+		if r.Bool(1, 2) {
+			return []byte{0x30 | q<<1, 0x03, 0x00, 0x01, 'a'}
+		}
+		return []byte{0x30 | q<<1, 0x04, 0x00, 0x01, 'a', byte(r.Intn(256))}
+	default:
+		// PUBREL with wrong flags
+		return []byte{0x60 | byte([]int{0, 1, 4, 8, 3}[r.Intn(5)]), 0x02, byte(r.Intn(256)), byte(1 + r.Intn(255))}
 	}
 }
 
